@@ -21,6 +21,9 @@ WHAT = {
     "C13-cauchy_pole_reflection": "Cauchy uses the reflection identity near the pole: -inf at u = 1/2",
     "C13-frechet_redundant_parens": "Frechet: -x.ln().powf(e) parses as -((ln x)^e)",
     "C13-weibull_upper_tail_series": "Weibull replaces -ln(x) near 1 by the series h - h^2/2 (wrong sign of the second term)",
+    "C02-binv_support_bound": "BINV restart guard bounded by min(n, 110) with `>=`: the top of the support is never compared with u (Binomial(1, 1/2) is always 0)",
+    "C02-poisson_fresh_quotient_variate": "Poisson PD step Q draws a fresh uniform instead of reusing step S's (left tail too heavy for lambda >= 12)",
+    "C02-zipf_s1_hat_area": "Zipf::new, s = 1: hat area ln(1 + n) (`ln_1p`) instead of 1 + ln n",
     "C03-binv_cutoff": "BINV/BTPE cutoff moved so that BINV runs with large n·p",
     "C03-zeta_uniform": "Zeta draws u from [0,1) instead of (0,1]",
     "C03-btpe_checked_cast": "BTPE region 4 uses the asserting f64_to_u64 on an infinite proposal",
